@@ -228,7 +228,6 @@ func init() {
 		p(xp, "PriorityQueue.Remove", "removeAbsentReturns", "if[0].body", "return"),
 		p(xp, "PriorityQueue.Remove", "removeCallsRemoveAt", "", "h.inner.RemoveAt(i)"),
 		p(xp, "PriorityQueue.Remove", "removeDeletes", "", "delete(h.m, k)"),
-		body(xp, "PriorityQueue.Grow", "pqGrowForwards", "h.inner.Grow(n)"),
 		// PriorityQueue.Iterate is exactly: the inner heap's iterator, lazily mapped to the key field
 		body(xp, "PriorityQueue.Iterate", "pqIterateMapsInnerToKey",
 			"returniterator.Map(h.inner.Iterate(),func(kpKP[K,P])K{returnkp.K})"),
